@@ -52,6 +52,8 @@ class PEval:
         self.bind = dict(bind or {})   # local/param name in the root function -> value (immune to kills)
         self.sticky = set()
         self.call_values = {}
+        self.sticky_once = None
+        self.head = None   # value of the next unread source byte (head-byte abstraction of Source::peek/read)
         for v in facts.vars:
             if v.get('ints') is not None and v['_unit'] == unit_fn['_unit']:
                 self.static_tables[v['id']] = v['ints']
@@ -74,13 +76,19 @@ class PEval:
             if v is UNK: return UNK
             if ck in ('IntegralCast', 'IntegralToBoolean', 'NoOp', 'LValueToRValue'):
                 return wrap(v, self.tn(e)) if ck != 'IntegralToBoolean' else (1 if v else 0)
-            if ck in ('ConstructorConversion', 'UserDefinedConversion'):
+            if ck == 'ConstructorConversion':
                 return UNK
+            if ck == 'UserDefinedConversion':
+                return v
             return wrap(v, self.tn(e))
         if k == 'DeclRefExpr':
             if e.get('dk') == 'EnumConstant': return e.get('v')
             return env.get(e.get('id'), UNK)
         if k == 'MemberExpr':
+            b = A.strip(e.get('base'))
+            if b is not None and b.get('k') == 'DeclRefExpr' and ('peek', b.get('id')) in env:
+                if e.get('n') == 'value': return env[('peek', b.get('id'))]
+                if e.get('n') == 'eof': return 0
             return env.get(('m', e.get('n')), UNK)
         if k == 'UnaryOperator':
             op = e.get('op')
@@ -140,6 +148,10 @@ class PEval:
                 return self.ev((e.get('args') or [None])[0], env, depth)
             if id(e) in self.call_values:
                 return self.call_values[id(e)]
+            if k == 'CXXMemberCallExpr' and A.callee_name(e) == 'operator bool':
+                o = A.strip(e.get('obj'), casts=True)
+                if o is not None and o.get('k') == 'DeclRefExpr' and ('ec', o.get('id')) in env:
+                    return env[('ec', o.get('id'))]
             callee = self.facts.callee(self.root, e)
             if callee is not None and depth < 3 and self.pure(callee, e):
                 return self.call_value(callee, e, env, depth + 1)
@@ -227,6 +239,13 @@ class PEval:
             return
         if k == 'CXXOperatorCallExpr' and e.get('oop') == '=' and len(e.get('args') or []) == 2:
             self.expr_effects(e['args'][1], env, guards, depth)
+            tgt = A.strip(e['args'][0], casts=True)
+            if tgt is not None and tgt.get('k') == 'DeclRefExpr' and 'error_code' in self.tn(tgt):
+                r = self.render(e['args'][1], env)
+                if isinstance(r, str) and '::' in r and not r.endswith('::success') and ' ' not in r:
+                    env[('ec', tgt.get('id'))] = 1
+                else:
+                    env.pop(('ec', tgt.get('id')), None)
             self.emit('set', A.text(e['args'][0])[:60], (self.render(e['args'][1], env),), guards, e.get('l', 0), depth=depth)
             return
         if k in ('CallExpr', 'CXXMemberCallExpr', 'CXXOperatorCallExpr', 'CXXConstructExpr', 'CXXTemporaryObjectExpr'):
@@ -243,12 +262,14 @@ class PEval:
             if callee is not None and depth < self.max_depth and self.follow(callee, e):
                 self.inline(callee, e, env, guards, depth)
                 return
+            self.sticky_once = None
+            if k == 'CXXMemberCallExpr': self._source_call(e, env)
             # out-parameters by address/reference of locals become unknown
             for a in e.get('args') or []:
                 s = A.strip(a, casts=True)
                 if s is not None and s.get('k') == 'UnaryOperator' and s.get('op') == '&':
                     t = A.strip(s.get('sub'))
-                    if t is not None and t.get('k') == 'DeclRefExpr': self._kill(env, t.get('id'))
+                    if t is not None and t.get('k') == 'DeclRefExpr' and t.get('id') != self.sticky_once: self._kill(env, t.get('id'))
                 elif s is not None and s.get('k') == 'DeclRefExpr' and s.get('lv') and s.get('dk') == 'Var':
                     # passed by (possibly non-const) reference: only kill if the parameter type is a non-const reference
                     pass
@@ -278,11 +299,18 @@ class PEval:
         args = call.get('args') or []
         if call.get('k') == 'CXXOperatorCallExpr' and callee.get('fk') == 'CXXMethod':
             args = args[1:]
-        cenv = {k: v for k, v in env.items() if isinstance(k, tuple)}   # member knowledge flows in
+        cenv = {k: v for k, v in env.items() if isinstance(k, tuple) and k[0] not in ('peek', 'ec')}   # member/source knowledge flows in
         for p, a in zip(callee['params'], args):
             v = self.ev(a, env)
             if v is not UNK:
                 cenv[p['id']] = wrap(v, callee['_types'][p['t'] - 1].replace('const ', '').replace(' &', ''))
+        refmap = []
+        for p, a in zip(callee['params'], args):
+            pt = callee['_types'][p['t'] - 1]
+            sa = A.strip(a, casts=True)
+            if pt.endswith('&') and 'error_code' in pt and sa is not None and sa.get('k') == 'DeclRefExpr':
+                refmap.append((p['id'], sa.get('id')))
+                if ('ec', sa.get('id')) in env: cenv[('ec', p['id'])] = env[('ec', sa.get('id'))]
         self.emit('enter', callee['n'], [self.render(a, env) for a in args], guards, call.get('l', 0), {'q': callee['q']}, depth)
         saved_root = self.root
         self.root = callee
@@ -297,17 +325,22 @@ class PEval:
             self.call_values[id(call)] = vals.pop()
         else:
             self.call_values.pop(id(call), None)
+        for pid, aid in refmap:
+            if ('ec', pid) in cenv: env[('ec', aid)] = cenv[('ec', pid)]
+            else: env.pop(('ec', aid), None)
         for k, v in list(env.items()):
-            if isinstance(k, tuple):
+            if isinstance(k, tuple) and k[0] not in ('peek', 'ec'):
                 if cenv.get(k, UNK) != v: env.pop(k, None)
         for k, v in cenv.items():
-            if isinstance(k, tuple): env[k] = v
+            if isinstance(k, tuple) and k[0] not in ('peek', 'ec'): env[k] = v
         self.emit('leave', callee['n'], (), guards, call.get('l', 0), depth=depth)
 
     # ---- statements -----------------------------------------------------------------
     def exec_body(self, fn, env):
         self.root = fn
         env = dict(env)
+        if self.head is not None:
+            env[('src', 'head')] = self.head
         for p in fn['params']:
             if p['n'] in self.bind:
                 env[p['id']] = wrap(self.bind[p['n']], fn['_types'][p['t'] - 1].replace('const ', '').replace(' &', ''))
@@ -460,6 +493,31 @@ class PEval:
             return {'throw'}
         return {'next'}
 
+    def _peek_call(self, e):
+        s = A.strip(e, casts=True)
+        while s is not None and s.get('k') in ('CXXConstructExpr',) and len(s.get('args') or []) == 1:
+            s = A.strip(s['args'][0], casts=True)
+        return s is not None and s.get('k') == 'CXXMemberCallExpr' and A.callee_name(s) == 'peek' and A.ref_name(s.get('obj')) == 'source_'
+
+    def _source_call(self, e, env):
+        """Head-byte abstraction: source_.read(&x,1) binds x to the head byte; any consuming call drops the head."""
+        name = A.callee_name(e)
+        if A.ref_name(e.get('obj')) != 'source_': return
+        if name in ('peek', 'is_error', 'eof', 'position'): return
+        head = env.get(('src', 'head'), UNK)
+        if name == 'read' and head is not UNK:
+            args = e.get('args') or []
+            n = self.ev(args[1], env) if len(args) > 1 else UNK
+            a0 = A.strip(args[0], casts=True) if args else None
+            if n == 1 and a0 is not None and a0.get('k') == 'UnaryOperator' and a0.get('op') == '&':
+                t = A.strip(a0.get('sub'))
+                if t is not None and t.get('k') == 'DeclRefExpr':
+                    env[t.get('id')] = head
+                    self.sticky_once = t.get('id')
+        env.pop(('src', 'head'), None)
+        for k in [k for k in env if isinstance(k, tuple) and k[0] == 'peek']:
+            pass  # already-peeked copies keep their value (they are copies)
+
     def _kill(self, env, key):
         if key in self.sticky: return
         env.pop(key, None)
@@ -476,7 +534,12 @@ class PEval:
             self.expr_effects(init, env, guards, depth)
             v = self.ev(init, env)
             tn = self.root['_types'][d['t'] - 1] if d.get('t') else ''
-            if v is not UNK and tn.replace('const ', '') in INT_TYPES:
+            pk = self._peek_call(init)
+            if pk and ('src', 'head') in env:
+                env[('peek', d['id'])] = env[('src', 'head')]
+            else:
+                env.pop(('peek', d['id']), None)
+            if v is not UNK:
                 env[d['id']] = wrap(v, tn)
             else:
                 env.pop(d['id'], None)
